@@ -107,6 +107,8 @@ impl TaikoGradualDifficulty {
             &mut n_diff_objects,
             difficulty.get_mods(),
         );
+        #[cfg(rosu_pp_verif)]
+        crate::verif::view_probe::report(1, 1, diff_objects.objects.len(), &[]);
 
         let skills = TaikoSkills::new(od_great, map.is_convert);
 
